@@ -75,6 +75,26 @@ R4 = {
  'C14-flush-after-idle':'caught by C06 (it is the graceful-close property that breaks)',
  'C18-close-error-on-ctx-end':'no waiting caller whose context ends while a Close is pending behind the stalled sender; scenario 4, with the new `vrt.QuiesceIdle` (a poll loop the harness itself keeps alive is not a hang)',
 }
+R5 = {
+ 'C03-channel-trigger-dropped-after-close':'no event entered a pipeline whose channel was already closed; entry 3 (Channel.Trigger after Close)',
+ 'C03-ctx-write-exception-from-own-position':'no fault during a ctx.Write in the C03 harness (C07 caught this mechanism in round 2); entry 4: the transport refuses the write, the exception must travel from the head',
+ 'C04-bufread-large-bypass':'caught by C17 (the transport wrappers are its subject)',
+ 'C04-recycle-refused-packet':'caught by C10 (pool recycling is its subject)',
+ 'C05-bufconn-close-flush-error':'caught by C13 (`ZZ_C13_BufferedClose`, added in round 4)',
+ 'C05-holder-inactive-only-registered':'caught by C13 (the holder is its subject)',
+ 'C07-holder-dup-lock':'caught by C13 (scenario with a repeated channel id, added in round 3)',
+ 'C07-lenfield-body-errwrap':'no shipped codec in the C07 pipelines; `ZZ_C07_CodecReadFault` (zzharness): the transport read fails after `cut` bytes of a frame with each frame codec in the pipeline - the exception and the close error must still be the transport error (errors.Is)',
+ 'C08-packet-reset-after-deliver':'the packet codec was only used for single packets; `ZZ_C08_Packet`: a delivery that fails (handler panic / transport error mid-packet) followed by a good packet',
+ 'C09-bufconn-large-writev-bypass':'caught by C14 and C17 (buffered transport)',
+ 'C10-readfrom-eof-recycle':'the streaming reader always returned io.EOF separately; variant that returns its last data together with io.EOF',
+ 'C11-readfrom-eof-normalized':'Close arguments had no end-of-stream class in C11; io.EOF and wrapped io.ErrUnexpectedEOF added',
+ 'C12-options-append-alias':'package transport had no harness; `ZZ_C12_ParseOptions`: two concurrent calls over one caller-owned option slice with spare capacity (vrt.Monitored)',
+ 'C16-json-eof-tolerated':'the decoder stub reported one opaque error; it now reports the error classes of the real decoder (syntax / io.EOF for an input without a value / io.ErrUnexpectedEOF)',
+ 'C16-packet-reset-after-deliver':'retained-strings harness variant 4 (packet codec after a failed delivery); also caught by C08',
+ 'C19-readfrom-recycle-on-error':'caught by C10 (the change is in channel.go; C19 checks the pool itself)',
+ 'C19-recycle-loopvar-alias':'caught by C10 (fourth independent delivery of this mechanism)',
+ 'C20-trigger-guard':'no event handler that closes the channel before it panics; variant 3',
+}
 rows = []
 for d in sorted(glob.glob('/verif/seeded/*/')):
     m = json.load(open(d + 'meta.json'))
@@ -91,4 +111,4 @@ def table(rnd, notes):
     return '\n'.join(out)
 if __name__ == '__main__':
     import sys
-    print(table(int(sys.argv[1]), {'1': R1, '2': R2, '3': R3, '4': R4}[sys.argv[1]]))
+    print(table(int(sys.argv[1]), {'1': R1, '2': R2, '3': R3, '4': R4, '5': R5}[sys.argv[1]]))
